@@ -119,6 +119,24 @@ pub struct Job {
 
 /// Runs all jobs in parallel.  A flagged statistic is re-sampled once with 8x
 /// the trials from an independent seed and reported only if it flags again.
+const HARNESS_PANIC: &str = "harness-panic";
+
+/// A job that panics: inside the code under test it is a violation (a statistical job has no other way to
+/// say so), inside the harness it makes the run inconclusive - never a crash of the whole check.
+fn run_guarded(job: &Job, trials: u64, seed: u64) -> Result<Vec<Stat>, Fail> {
+    match crate::guarded(|| (job.run)(trials, seed)) {
+        Ok(r) => r,
+        Err(desc) => {
+            if desc.contains(&format!("{}/", crate::repo_dir())) || desc.contains("/repo/") {
+                let what = job.name.split([' ', '(']).next().unwrap_or("job");
+                Err(Fail::new(format!("{what}/panic:{}", crate::panic_key(&desc)), format!("{}: the code under test panicked: {desc}", job.name)))
+            } else {
+                Err(Fail::new(HARNESS_PANIC, format!("the harness itself panicked in job {}: {desc}", job.name)))
+            }
+        }
+    }
+}
+
 pub fn run_jobs(ctx: &mut Ctx, sub: &str, jobs: Vec<Job>, trials: u64) {
     let seed = ctx.seed;
     let property = ctx.property.clone();
@@ -127,12 +145,12 @@ pub fn run_jobs(ctx: &mut Ctx, sub: &str, jobs: Vec<Job>, trials: u64) {
         .par_iter()
         .map(|job| {
             let s1 = derive_seed(seed, &property, &job.name, 1);
-            let r = (job.run)(trials, s1).and_then(|stats| {
+            let r = run_guarded(job, trials, s1).and_then(|stats| {
                 let flagged: Vec<&Stat> = stats.iter().filter(|s| s.count.flagged()).collect();
                 let mut confirmed = vec![];
                 if !flagged.is_empty() {
                     let s2 = derive_seed(seed, &property, &job.name, 2);
-                    let again = (job.run)(trials * 8, s2)?;
+                    let again = run_guarded(job, trials * 8, s2)?;
                     for f in flagged {
                         if let Some(a) = again.iter().find(|a| a.count.name == f.count.name) {
                             if a.count.flagged() {
@@ -151,6 +169,11 @@ pub fn run_jobs(ctx: &mut Ctx, sub: &str, jobs: Vec<Job>, trials: u64) {
     let mut n_counts = 0u64;
     for (job, r) in results {
         match r {
+            Err(f) if f.signature == HARNESS_PANIC => {
+                if ctx.inconclusive.len() < 8 {
+                    ctx.inconclusive.push(format!("{sub}: {}", f.message));
+                }
+            }
             Err(f) => ctx.violation(sub, &f, json!({"job": job})),
             Ok((stats, confirmed)) => {
                 ctx.count(sub, trials);
